@@ -21,7 +21,8 @@ func init() {
 		Decided: "D1 the compare dispatcher handles the same kinds as the rank dispatcher, its nil ladders answer true/false/false for (undefined,undefined)/(undefined,x)/(x,undefined), the compare leaf is == and every rank leaf returns Equal exactly on the = cell (so both agree on all ordered pairs); on the IEEE-unordered cell they must not contradict each other; " +
 			"D2 sequence and map comparison test the sizes before the contents (a mismatch returns false before the element loop, whose bound is the first operand's size) and compare mirror-image parts of first and second (the second map is read under the first map's key); " +
 			"D3 after removing the call edges that lie inside a depth bracket of a function that checks depth against the maximum, the collator's call graph is acyclic (otherwise a self-containing value recurses without bound: a fatal stack overflow instead of the documented panic); " +
-			"D4 the exported entry points restore the depth counter before delegating, so a depth-limit panic does not poison later calls on the same collator.",
+			"D4 the exported entry points restore the depth counter before delegating, so a depth-limit panic does not poison later calls on the same collator." +
+			" Also: the rank side answers Equal only for operands of the same size. Depth accounting is judged per cycle: every recursion cycle contains a call made with the counter stepped up and a call made after a comparison with the maximum.",
 		NotDecided: "reflexivity/symmetry/transitivity over the value universe, sensitivity to every single-part mutation, that getters enumerate all parts.",
 		Run:        runC08,
 	})
